@@ -146,12 +146,12 @@ def onEvent (cfg : Cfg) (l : Line) (s : St) : Option (List St) :=
   | _ => none
 
 /-- Does this park hold the goroutine that the model still regards as the loop? -/
-def freezes (l : Line) : Bool :=
+def freezes (cfg : Cfg) (l : Line) : Bool :=
   match l.get? "p" with
-  | some "loop.sawEmpty" => false
+  | some "loop.sawEmpty" => !cfg.fixed
   | some "process.resetSent" => false
   | some "process.tokenTaken" => false
-  | some "loop.peeked" => l.get? "none" != some "1"
+  | some "loop.peeked" => l.get? "none" != some "1" || !cfg.fixed
   | some _ => true
   | none => false
 
@@ -167,7 +167,7 @@ def handle (d : D) (raw : String) : D × String :=
     if rs.any Option.isNone then
       ({ d with dead := true }, s!"REJECT malformed line: {raw.trimAscii.toString}")
     else
-      let frozen := if l.op == "park" then freezes l else if l.op == "unpark" then false else d.frozen
+      let frozen := if l.op == "park" then freezes d.cfg l else if l.op == "unpark" then false else d.frozen
       let next := closure d.cfg frozen (rs.flatMap fun r => r.getD [])
       if next.isEmpty then
         ({ d with dead := true, states := [] },
